@@ -18,11 +18,28 @@ Viol(e) ==
                                 \cup Tag("C06.tail", IF Has(e, "tail") THEN e.tail ELSE TRUE)
            ELSE {})
 
+\* thorough tier: maximal runs of sector counts [lo, hi] for which the default-options boot sector has the same layout
+\* (hook verif_format_boot_sector, no I/O).  Every clause below is monotone in the sector count for a fixed layout
+\* (the cluster count only grows with it), so it holds on the whole run iff it holds at both ends.
+RunViol(e) ==
+   IF e.op # "fmtrun" THEN {}
+   ELSE   Tag("C06.no_panic", e.r.k \notin {"panic", "hang"})
+     \cup Tag("C06.outcome_kind", e.r.k = "err" => e.r.e = "InvalidInput")
+     \cup Tag("C06.default_ok", Leq(FromInt(42), e.lo) => e.r.k = "ok")
+     \cup (IF e.r.k # "ok" THEN {}
+           ELSE UNION {LET b == x[1] T == x[2] n == Clusters(b) ft == FatTypeOf(n) IN
+                         Tag("C06.geom", b.bps = 512 /\ b.spc \in {1, 2, 4, 8, 16, 32, 64, 128} /\ b.nfats = 2 /\ Eq(Total(b), T))
+                         \cup Tag("C06.coherent", Coherent(b))
+                         \cup Tag("C06.fat_type", (ft = 32) = Layout32(b) /\ (ft = 32 => Leq(n, MaxCluster32)) /\ (ft # 32 => b.rootn = 512))
+                         \cup Tag("C06.fat_capacity", TableHolds(b, ft))
+                         \cup Tag("C06.regions_fit", Leq(Add(FirstData(b), MulSmall(n, b.spc)), Total(b)))
+                       : x \in {<<e.blo, e.lo>>, <<e.bhi, e.hi>>}})
+
 Init == l = 1
 Next ==
    /\ l <= Len(Rec)
    /\ l' = l + 1
-   /\ LET e == Rec[l] IN \A t \in Viol(e) : PrintT(<<"VIOL", t, e.pid, e.i, "fmt">>)
+   /\ LET e == Rec[l] IN \A t \in Viol(e) \cup RunViol(e) : PrintT(<<"VIOL", t, e.pid, e.i, "fmt">>)
 Spec == Init /\ [][Next]_l
 TraceAccepted == TLCGet("stats").diameter = Len(Rec) + 1
 =============================================================================
